@@ -194,6 +194,35 @@ harnesses! {
         std::mem::forget(poly);
     }
 
+    /// <WallGeom as Bounded>::aabb (pose: translation only, tilt 0 / azimuth 0): contains every corner and is tight
+    #[kani::unwind(10)]
+    fn wallgeom_aabb(s) {
+        let (tx, ty, tz) = (s.gi(-3, 3), s.gi(-3, 3), s.gi(-3, 3));
+        let mut xs = [0.0f32; 4];
+        let mut ys = [0.0f32; 4];
+        let mut poly: Vec<Point2> = Vec::new();
+        let mut i = 0;
+        while i < 4 {
+            xs[i] = s.gi(-4, 4);
+            ys[i] = s.gi(-4, 4);
+            poly.push(point![xs[i], ys[i]]);
+            i += 1;
+        }
+        let g = WallGeom { tilt: 0.0, azimuth: 0.0, position: Some(point![tx, ty, tz]), polygon: poly };
+        let b = g.aabb();
+        let (mut tlx, mut thx, mut tly, mut thy) = (false, false, false, false);
+        let mut i = 0;
+        while i < 4 {
+            let (gx, gy) = (xs[i] + tx, ys[i] + ty);
+            assert!(b.min.x <= gx && gx <= b.max.x && b.min.y <= gy && gy <= b.max.y && b.min.z <= tz && tz <= b.max.z, "C13:the bounding box of a polygon contains all its corners");
+            tlx = tlx || b.min.x == gx; thx = thx || b.max.x == gx; tly = tly || b.min.y == gy; thy = thy || b.max.y == gy;
+            i += 1;
+        }
+        cover!(xs[0] > xs[1] && xs[1] > xs[2] && xs[2] > xs[3], "first vertex is the strict maximum, later ones decrease");
+        assert!(tlx && thx && tly && thy && b.min.z == tz && b.max.z == tz, "C13:the bounding box of a polygon is tight");
+        std::mem::forget(g);
+    }
+
     /// ray/plane: hit iff the plane is crossed in front of the origin at a point inside the rectangle;
     /// polygon pose = pure translation, normal +z or -z (vertex order), exact integer reference
     #[kani::unwind(10)]
